@@ -126,6 +126,10 @@ class Action(EvalableModel):
     """ Guard: True only while the model is actively populating ``_n_calls``. Reading
     ``n_calls`` outside of that window raises. Set via ``_set_n_calls``. """
 
+    _costs_calculated: frozenset = PrivateAttr(default=frozenset())
+    """ Names of the cost fields (``energy``, ``throughput``) whose stored value already
+    includes the scale factors. Recomputing costs leaves these values unchanged. """
+
     @property
     def n_calls(self) -> int | float:
         """
@@ -400,6 +404,10 @@ class Component(Spatialable):
 
     model_config = ConfigDict(arbitrary_types_allowed=True)
 
+    _costs_calculated: frozenset = PrivateAttr(default=frozenset())
+    """ Names of the cost fields (``area``, ``leak_power``) whose stored value already
+    includes the scale factors. Recomputing costs leaves these values unchanged. """
+
     def _update_actions(self, new_actions: EvalableList[Action]):
         has_actions = oset(x.name for x in self.actions)
         for action in new_actions:
@@ -536,6 +544,8 @@ class Component(Spatialable):
         messages = self.component_modeling_log
 
         for action in self.actions:
+            if "energy" in action._costs_calculated:
+                continue
             messages.append(f"Calculating energy for {self.name} action {action.name}.")
             if action.energy is not None:
                 energy = action.energy
@@ -566,6 +576,7 @@ class Component(Spatialable):
                 energy *= action.energy_scale
                 messages.append(f"Scaling {self.name} energy by {action.energy_scale=}")
             action.energy = energy
+            action._costs_calculated = action._costs_calculated | {"energy"}
             if action.energy < 0:
                 logging.warning(
                     f"Component {self.name} action {action.name} has negative energy: "
@@ -612,6 +623,9 @@ class Component(Spatialable):
         if not in_place:
             self: Self = self._copy_for_component_modeling()
 
+        if "leak_power" in self._costs_calculated:
+            return self
+
         messages = self.component_modeling_log
         if self.leak_power is not None:
             leak_power = self.leak_power
@@ -633,6 +647,7 @@ class Component(Spatialable):
             leak_power *= self.n_parallel_instances
             messages.append(f"Scaling leak power by {self.n_parallel_instances=}")
         self.leak_power = leak_power
+        self._costs_calculated = self._costs_calculated | {"leak_power"}
         if self.leak_power < 0:
             logging.warning(
                 f"Component {self.name} has negative leak power: {self.leak_power}"
@@ -678,6 +693,9 @@ class Component(Spatialable):
         if not in_place:
             self: Self = self._copy_for_component_modeling()
 
+        if "area" in self._costs_calculated:
+            return self
+
         messages = self.component_modeling_log
         if self.area is not None:
             area = self.area
@@ -699,6 +717,7 @@ class Component(Spatialable):
             area *= self.n_parallel_instances
             messages.append(f"Scaling area by {self.n_parallel_instances=}")
         self.area = area
+        self._costs_calculated = self._costs_calculated | {"area"}
         if self.area < 0:
             logging.warning(f"Component {self.name} has negative area: {self.area}")
         return self
@@ -733,6 +752,8 @@ class Component(Spatialable):
         messages = self.component_modeling_log
 
         for action in self.actions:
+            if "throughput" in action._costs_calculated:
+                continue
             messages.append(
                 f"Calculating throughput for {self.name} action {action.name}."
             )
@@ -776,6 +797,7 @@ class Component(Spatialable):
                     f"Multiplying {self.name} throughput by {self.n_parallel_instances=}"
                 )
             action.throughput = throughput
+            action._costs_calculated = action._costs_calculated | {"throughput"}
             if action.throughput < 0:
                 logging.warning(
                     f"Component {self.name} action {action.name} has negative throughput: "
